@@ -91,6 +91,19 @@ def clause1_value(ctx, P):
         if err and v.ret_const() != 0:
             bad = v
     ctx.ob("C14.1 R-ORDER", g, "refusal-returns-0", bad is None, "a refused timeout does not return the refusal value 0")
+    # the default deadline is used only when the member is ABSENT: a present member of any non-number type is refused
+    badd = None
+    nd = 0
+    for v in views:
+        ro = v.ret_operand()
+        if ro is not None and P.term(g, ro) == ("param", 4, g.params[4]["name"]):
+            nd += 1
+            absent = v.has_atom(lambda a, p: a[0] == "cmp" and a[2] == ("param", 2, g.params[2]["name"]) and a[3] == ("null",) and Q._poleq(a, p))
+            if not absent:
+                badd = v
+    ctx.ob("C14.1 R-GATE", g, "default-only-when-absent", badd is None and nd > 0,
+           "the default deadline is used although a timeout member is present (e.g. \"timeout\": null): a member that is not a number "
+           "must be refused", witness=badd.witness() if badd else None)
     for c in P.callers_of(g):
         f = c.fn
 
@@ -249,6 +262,22 @@ def clause3_batch(ctx, P, cg):
             guards += 1
             ctx.ob("C14.3 R-GATE", he, Q.ordinal_site(he, i, P) + ":current-entry", Q.must_pass(P, he, i.block, cur),
                    "write dispatch after a read callback is not guarded by current_ev != NULL (the read callback may have removed the entry)")
+    # ... and so does every READ through the entry after the read dispatch (e.g. fetching ev->write_function for the test)
+    rd = [i for (i, t) in disp if t[1][3] == "read_function"]
+    if rd:
+        hdrs = [h for h, body in he.loops().items() if rd[0].block in body]
+        after = he.reachable(rd[0].block, removed_blocks=tuple(hdrs))   # the rest of THIS iteration
+        for i in he.all_insts():
+            if i.op != "load" or i.block not in after or i.block == rd[0].block:
+                continue
+            t = P.term(he, i.a[0])
+            if t[0] == "field" and t[2] == "struct.io_event" and t[3] != "read_function":
+                def cur2(atom, pol):
+                    return atom[0] == "cmp" and atom[3] == ("null",) and \
+                        Q.is_field_load(atom[2], "struct.eventloop_epoll", "current_ev") is not None and not Q._poleq(atom, pol)
+                ctx.ob("C14.3 R-GATE", he, Q.ordinal_site(he, i, P) + ":read-through-entry-after-read-dispatch", Q.must_pass(P, he, i.block, cur2),
+                       "ev->%s is read after the read callback ran without the current_ev != NULL test first: the callback may have "
+                       "released the entry (use after free)" % t[3])
     ctx.floor("C14.3 R-EFFECT", 1)
 
 
